@@ -324,3 +324,66 @@ package state
 //@ func NewTypedCollectionWithType
 //@   props C18
 //@   ensures [C18.coll.newtyped] result != nil && fresh(result) && result.store == store && result.entityType == entityType
+
+// ---------------------------------------------------------------- option literals
+// Every bundled option sets exactly its field to its argument (modset inference shows nothing else is
+// written): the bundled options satisfy the assumed `callback ChangeOption / MaterializerOption` contracts.
+//@ func WithTxID$1
+//@   props C19
+//@   requires c != nil
+//@   ensures [C19.opt.txid] c.txID == txID
+//@ func WithTimestamp$1
+//@   props C19
+//@   requires c != nil
+//@   ensures [C19.opt.timestamp] c.timestamp != nil && *c.timestamp == t
+//@ func WithAutoTimestamp$1
+//@   props C19
+//@   requires c != nil
+//@   ensures [C19.opt.autots] c.autoTimestamp
+//@ func WithEntityType$1
+//@   props C19
+//@   requires c != nil
+//@   ensures [C19.opt.entity] c.entityType == typeName
+//@ func WithOnReset$1
+//@   props C18
+//@   requires c != nil
+//@   ensures [C18.opt.onreset] c.onReset == fn
+//@ func WithOnSnapshot$1
+//@   props C18
+//@   requires c != nil
+//@   ensures [C18.opt.onsnapshot] c.onSnapshot == fn
+//@ func WithOnError$1
+//@   props C18 C19
+//@   requires c != nil
+//@   ensures [C19.opt.onerror] c.onError == fn
+//@ func WithStrictSchema$1
+//@   props C18 C19
+//@   requires c != nil
+//@   ensures [C19.opt.strict] c.strictSchema
+
+// ---------------------------------------------------------------- option constructors
+// Each returns its option literal (the literal's own contract says what the option does).
+//@ func WithTxID
+//@   props C19
+//@   ensures [opt.value] result != nil
+//@ func WithTimestamp
+//@   props C19
+//@   ensures [opt.value] result != nil
+//@ func WithAutoTimestamp
+//@   props C19
+//@   ensures [opt.value] result != nil
+//@ func WithEntityType
+//@   props C19
+//@   ensures [opt.value] result != nil
+//@ func WithOnReset
+//@   props C18
+//@   ensures [opt.value] result != nil
+//@ func WithOnSnapshot
+//@   props C18
+//@   ensures [opt.value] result != nil
+//@ func WithOnError
+//@   props C19
+//@   ensures [opt.value] result != nil
+//@ func WithStrictSchema
+//@   props C19
+//@   ensures [opt.value] result != nil
